@@ -37,7 +37,7 @@ def run(m: Model, r: Report, tier: str) -> None:
     r.rule("R3", "every transport await carries a timeout that cannot be None", floor=3)
     r.rule("R4", "a new attempt (continue of the retry loop) happens only on TimeoutError, ConnectionError or busyRepeatRequest", floor=3)
     r.rule("R5", "nothing fabricated or dropped: returns yield parse_pdu(raw_resp, request); every raw_resp comes from a transport "
-                 "read and is followed by the empty-read -> BrokenPipeError guard inside the try that converts connection errors", floor=6)
+                 "read and is followed by the empty-read -> BrokenPipeError guard inside the try that converts connection errors", floor=5)
     r.rule("R6", "the terminal error is a MissingResponse; on connection errors its __cause__ is set and a reconnect happens iff retries remain", floor=5)
     r.rule("R7", "per-request overrides resolve as `config.x if config.x is not None else self.x`", floor=2)
 
@@ -56,7 +56,7 @@ def run(m: Model, r: Report, tier: str) -> None:
         return [a for a in ancestors(node, par) if isinstance(a, (ast.For, ast.While))]
 
     # ---------------------------------------------------------------- R1
-    r.check(ast.unparse(FOR.iter) == "range(max_retry + 1)", "R1", f"{fn.qualname}#attempts",
+    r.check(ast.unparse(FOR.iter).replace(" ", "") in ("range(max_retry+1)", "range(0,max_retry+1)", "range(1+max_retry)"), "R1", f"{fn.qualname}#attempts",
             f"retry loop iterates over {ast.unparse(FOR.iter)}; documented: max_retry + 1 attempts", loc=fn.loc)
     base_req = m.require_function(f"{BASE}.BaseTransport.request_unsafe")
     writes_in_base = [n for n in ast.walk(base_req.node) if isinstance(n, ast.Call) and ast.unparse(n.func) == "self.write"]
@@ -91,49 +91,61 @@ def run(m: Model, r: Report, tier: str) -> None:
                 out.append(n)
         return out
 
-    for cname, limit in (("n_pending", "MAX_N_PENDING"), ("n_timeout", "max_n_timeout")):
+    # counters = names incremented inside the pending loop; limit = what the directly following test compares them with
+    counters: dict[str, str] = {}
+    for n in ast.walk(WHILE):
+        if isinstance(n, ast.AugAssign) and isinstance(n.op, ast.Add) and isinstance(n.target, ast.Name):
+            for nd in g.nodes_of(n):
+                succ = [b for b, k in g.succ[nd.id] if k == "n"]
+                c = g.nodes[succ[0]] if succ else None
+                if c is not None and c.kind == "cond" and isinstance(c.ast, ast.Compare) and len(c.ast.ops) == 1 \
+                        and isinstance(c.ast.ops[0], (ast.GtE, ast.Gt)) and ast.unparse(c.ast.left) == n.target.id \
+                        and isinstance(c.ast.comparators[0], ast.Name):
+                    counters[n.target.id] = c.ast.comparators[0].id
+                else:
+                    counters.setdefault(n.target.id, "")
+    r.check(len(counters) >= 2 and all(counters.values()), "R2", f"{fn.qualname}#progress-counters",
+            f"counters incremented in the pending loop and their limit tests: {counters}; expected one for received pendings and one "
+            "for silent polls, each followed by `counter >= limit`", loc=fn.loc)
+    for cname, limit in sorted(counters.items()):
+        if not limit:
+            continue
         inits = [a for a in assigns(cname) if isinstance(a, ast.Assign) and WHILE not in ancestors(a, par)]
-        r.check(len(inits) == 1 and loops_of(inits[0]) == [FOR], "R2", f"{fn.qualname}#{cname}-per-attempt",
+        r.check(len(inits) == 1 and loops_of(inits[0]) == [FOR], "R2", f"{fn.qualname}#counter-per-attempt:{cname}",
                 f"{cname} must be initialised once per attempt inside the retry loop (found at loop nesting "
                 f"{[[type(l).__name__ for l in loops_of(i)] for i in inits]}): a counter carried over from an earlier attempt "
                 "ends the next attempt early and drops a reply that arrives in time", loc=fn.loc)
         lim = assigns(limit)
-        r.check(len(lim) == 1 and WHILE not in ancestors(lim[0], par), "R2", f"{fn.qualname}#{limit}-invariant",
-                f"{limit} must be assigned exactly once, outside the pending loop", loc=fn.loc)
-        incs = [a for a in assigns(cname) if isinstance(a, ast.AugAssign) and isinstance(a.op, ast.Add) and WHILE in ancestors(a, par)]
-        r.check(len(incs) >= 1, "R2", f"{fn.qualname}#{cname}-increment", f"{cname} is never incremented in the pending loop", loc=fn.loc)
+        r.check(len(lim) == 1 and WHILE not in ancestors(lim[0], par) and loops_of(lim[0]) in ([FOR], []), "R2",
+                f"{fn.qualname}#limit-invariant:{limit}", f"{limit} must be assigned exactly once, outside the pending loop", loc=fn.loc)
+        incs = [a for a in assigns(cname) if isinstance(a, ast.AugAssign) and WHILE in ancestors(a, par)]
         for inc in incs:
-            nodes = g.nodes_of(inc)
-            okc = bool(nodes)
-            for nd in nodes:
+            okc = True
+            for nd in g.nodes_of(inc):
                 succ = [b for b, k in g.succ[nd.id] if k == "n"]
-                c = g.nodes[succ[0]] if succ else None
-                txt = ast.unparse(c.ast) if c is not None and c.ast is not None else ""
-                if not (c is not None and c.kind == "cond" and txt.replace(" ", "") == f"{cname}>={limit}"):
-                    okc = False
-                    continue
-                # the true branch must leave the loop without passing the loop head again
+                c = g.nodes[succ[0]]
                 t = g.succ[c.id][0][0]
                 head = [x.id for x in g.nodes.values() if x.kind == "loop" and x.ast is WHILE]
                 reach = g.reachable_from(t, avoid=set(head))
                 outside = [x for x in reach if g.nodes[x].ast is not None and WHILE not in ancestors(g.nodes[x].ast, par) and g.nodes[x].ast is not WHILE]
                 if not outside and g.exit_raise not in reach:
                     okc = False
-            r.check(okc, "R2", f"{fn.qualname}#{cname}-limit-test",
-                    f"the increment of {cname} is not directly followed by `{cname} >= {limit}` leaving the loop", loc=fn.loc)
-    resets = [a for a in assigns("n_timeout") if isinstance(a, ast.Assign) and WHILE in ancestors(a, par)]
+            r.check(okc, "R2", f"{fn.qualname}#limit-leaves-loop:{cname}",
+                    f"reaching the limit of {cname} does not leave the pending loop", loc=fn.loc)
+    resets = [a for c in counters for a in assigns(c) if isinstance(a, ast.Assign) and WHILE in ancestors(a, par)]
     ok_reset = True
     for rs in resets:
-        # a reset is only allowed on the path that also increments n_pending (same block)
+        # a reset is only allowed in a block that also increments another counter (progress of the other measure)
         blk = par[id(rs)]
         body = getattr(blk, "body", [])
-        if not any(isinstance(s, ast.AugAssign) and ast.unparse(s.target) == "n_pending" for s in body):
+        me = ast.unparse(rs.targets[0])
+        if not any(isinstance(x, ast.AugAssign) and ast.unparse(x.target) in counters and ast.unparse(x.target) != me for x in body):
             ok_reset = False
-    r.check(ok_reset and not [a for a in assigns("n_pending") if isinstance(a, ast.Assign) and WHILE in ancestors(a, par)],
-            "R2", f"{fn.qualname}#no-counter-reset", "a counter is reset inside the pending loop without progress of the other counter", loc=fn.loc)
+    r.check(ok_reset, "R2", f"{fn.qualname}#no-counter-reset",
+            "a counter is reset inside the pending loop without progress of the other counter", loc=fn.loc)
     # every back edge passes an increment
     heads = [x.id for x in g.nodes.values() if x.kind == "loop" and x.ast is WHILE]
-    inc_nodes = {x.id for x in g.nodes.values() if isinstance(x.ast, ast.AugAssign) and ast.unparse(x.ast.target) in ("n_pending", "n_timeout")}
+    inc_nodes = {x.id for x in g.nodes.values() if isinstance(x.ast, ast.AugAssign) and ast.unparse(x.ast.target) in counters}
     for h in heads:
         body_entry = g.succ[h][0][0]
         ok2, p2 = g.must_pass(body_entry, inc_nodes, {h})
@@ -142,28 +154,43 @@ def run(m: Model, r: Report, tier: str) -> None:
                 + " -> ".join(repr(g.nodes[p]) for p in p2[-4:]), loc=fn.loc)
 
     # ---------------------------------------------------------------- R3 / R7
-    def ifexp_override(name: str, attr: str) -> bool:
-        a = [x for x in assigns(name) if isinstance(x, ast.Assign)]
-        return len(a) == 1 and ast.unparse(a[0].value) == f"config.{attr} if config.{attr} is not None else self.{attr}"
-    for name, attr in (("max_retry", "max_retry"), ("timeout", "timeout")):
-        a = [x for x in assigns(name) if isinstance(x, ast.Assign)]
-        r.check(ifexp_override(name, attr), "R7", f"{fn.qualname}#{name}-override",
-                f"{name} = {ast.unparse(a[0].value) if a else None}; an explicit per-request 0 must override the client default "
-                "(`or` treats 0 as unset)", loc=fn.loc)
+    override_var: dict[str, str] = {}
+    for attr in ("max_retry", "timeout"):
+        a = [x for x in walk_no_nested(fn.node) if isinstance(x, ast.Assign) and f"config.{attr}" in ast.unparse(x.value)
+             and f"self.{attr}" in ast.unparse(x.value) and isinstance(x.targets[0], ast.Name)]
+        okv = len(a) == 1 and ast.unparse(a[0].value) == f"config.{attr} if config.{attr} is not None else self.{attr}"
+        if len(a) == 1:
+            override_var[attr] = a[0].targets[0].id
+        r.check(okv, "R7", f"{fn.qualname}#{attr}-override",
+                f"{attr} is resolved by `{ast.unparse(a[0].value) if a else None}`; an explicit per-request 0 must override the client "
+                "default (`or` / truthiness treats 0 as unset)", loc=fn.loc)
     init = m.require_function(f"{CLIENT}.UDSClient.__init__")
     ann = init.param_annotations().get("timeout")
     r.check(ann is not None and ast.unparse(ann) == "float", "R3", f"{init.qualname}#timeout-type",
             f"UDSClient timeout is annotated {ast.unparse(ann) if ann else None}; a None default would make the request wait forever", loc=init.loc)
     w = wsites[0] if wsites else None
-    r.check(w is not None and len(w.args) >= 2 and ast.unparse(w.args[1]) == "timeout", "R3", f"{fn.qualname}#write-timeout",
+    r.check(w is not None and len(w.args) >= 2 and ast.unparse(w.args[1]) == override_var.get("timeout", "timeout"), "R3", f"{fn.qualname}#write-timeout",
             "the transport request does not receive the resolved timeout", loc=fn.loc)
-    wt = [x for x in assigns("waiting_time") if isinstance(x, ast.Assign)]
-    wv = m.try_fold(fn.module, wt[0].value) if len(wt) == 1 else None
-    poll_ok = all(any(kw.arg == "timeout" and ast.unparse(kw.value) == "waiting_time" for kw in x.keywords) or
-                  (x.args and ast.unparse(x.args[0]) == "waiting_time") for x in rsites)
-    r.check(isinstance(wv, (int, float)) and wv > 0 and poll_ok, "R3", f"{fn.qualname}#poll-timeout",
-            f"pending polls must use the constant waiting_time (= {wv})", loc=fn.loc)
+    poll_ok = bool(rsites)
+    wv = None
+    for x in rsites:
+        e = next((kw.value for kw in x.keywords if kw.arg == "timeout"), x.args[0] if x.args else None)
+        if isinstance(e, ast.Name):
+            wt = [y for y in assigns(e.id) if isinstance(y, ast.Assign)]
+            wv = m.try_fold(fn.module, wt[0].value) if len(wt) == 1 else None
+        elif e is not None:
+            wv = m.try_fold(fn.module, e)
+        if not (isinstance(wv, (int, float)) and wv > 0):
+            poll_ok = False
+    r.check(poll_ok, "R3", f"{fn.qualname}#poll-timeout", f"pending polls must use a positive constant timeout (found {wv!r})", loc=fn.loc)
 
+    rets = [n for n in walk_no_nested(fn.node) if isinstance(n, ast.Return)]
+    rnames = {ast.unparse(n.value) if n.value is not None else None for n in rets}
+    RESP = next(iter(rnames)) if len(rnames) == 1 and None not in rnames else "resp"
+    raws = [n for n in walk_no_nested(fn.node) if isinstance(n, ast.Assign) and isinstance(n.value, ast.Await)
+            and isinstance(n.value.value, ast.Call) and n.value.value in (wsites + rsites)]
+    rawnames = {ast.unparse(a.targets[0]) for a in raws}
+    RAW = next(iter(rawnames)) if len(rawnames) == 1 else "raw_resp"
     # ---------------------------------------------------------------- R4
     conts = [n for n in walk_no_nested(fn.node) if isinstance(n, ast.Continue) and loops_of(n)[0] is FOR]
     for c in conts:
@@ -181,27 +208,24 @@ def run(m: Model, r: Report, tier: str) -> None:
     busy = [n for n in walk_no_nested(fn.node) if isinstance(n, ast.If) and "busyRepeatRequest" in ast.unparse(n.test)]
     okb = len(busy) == 1 and len(busy[0].body) >= 2 and isinstance(busy[0].body[0], ast.If) and \
         ast.unparse(busy[0].body[0].test).replace(" ", "") == "i>=max_retry" and \
-        isinstance(busy[0].body[0].body[0], ast.Return) and ast.unparse(busy[0].body[0].body[0].value) == "resp"
+        isinstance(busy[0].body[0].body[0], ast.Return) and ast.unparse(busy[0].body[0].body[0].value) == RESP
     r.check(okb, "R4", f"{fn.qualname}#busy-last-attempt", "busyRepeatRequest on the last attempt must be returned to the caller", loc=fn.loc)
 
     # ---------------------------------------------------------------- R5
-    rets = [n for n in walk_no_nested(fn.node) if isinstance(n, ast.Return)]
-    r.check(bool(rets) and all(n.value is not None and ast.unparse(n.value) == "resp" for n in rets), "R5", f"{fn.qualname}#returns",
-            f"returns {[ast.unparse(n.value) if n.value else None for n in rets]}", loc=fn.loc)
-    rdefs = [a for a in assigns("resp")]
-    r.check(bool(rdefs) and all(isinstance(a, ast.Assign) and ast.unparse(a.value) == "parse_pdu(raw_resp, request)" for a in rdefs),
-            "R5", f"{fn.qualname}#resp-defs", f"resp is defined by {[ast.unparse(a.value) for a in rdefs if isinstance(a, ast.Assign)]}", loc=fn.loc)
-    raws = [a for a in assigns("raw_resp")]
+    r.check(len(rnames) == 1 and None not in rnames, "R5", f"{fn.qualname}#returns",
+            f"returns {sorted(map(str, rnames))}: every return must yield the parsed reply variable", loc=fn.loc)
+    rdefs = [a for a in assigns(RESP)]
+    r.check(bool(rdefs) and all(isinstance(a, ast.Assign) and ast.unparse(a.value) == f"parse_pdu({RAW}, request)" for a in rdefs),
+            "R5", f"{fn.qualname}#resp-defs", f"{RESP} is defined by {[ast.unparse(a.value) for a in rdefs if isinstance(a, ast.Assign)]}", loc=fn.loc)
+    extra_raw = [a for a in assigns(RAW) if a not in raws]
+    r.check(not extra_raw, "R5", f"{fn.qualname}#raw-only-from-transport",
+            f"{RAW} is also assigned by {[ast.unparse(a)[:60] for a in extra_raw]} (fabricated data)", loc=fn.loc)
     for a in raws:
-        src = ast.unparse(a.value) if isinstance(a, ast.Assign) else "?"
-        from_transport = isinstance(a, ast.Assign) and isinstance(a.value, ast.Await) and \
-            (src.startswith("await self.transport.request_unsafe(") or src.startswith("await self._read("))
-        r.check(from_transport, "R5", f"{fn.qualname}#raw_resp@{a.lineno}-source", f"raw_resp = {src[:80]} does not come from a transport read", loc=fn.loc)
         blk = par[id(a)]
         body = blk.body if isinstance(blk, ast.Try) else getattr(blk, "body", [])
         idx = body.index(a) if a in body else -1
         nxt = body[idx + 1] if 0 <= idx < len(body) - 1 else None
-        guard_ok = isinstance(nxt, ast.If) and ast.unparse(nxt.test) in ("raw_resp == b''", "not raw_resp", "len(raw_resp) == 0") and \
+        guard_ok = isinstance(nxt, ast.If) and ast.unparse(nxt.test) in (f"{RAW} == b''", f"not {RAW}", f"len({RAW}) == 0") and \
             isinstance(nxt.body[0], ast.Raise) and "BrokenPipeError" in ast.unparse(nxt.body[0])
         in_try = isinstance(blk, ast.Try) and a in blk.body
         handles = in_try and any(h.type is not None and ast.unparse(h.type) == "ConnectionError" for h in blk.handlers) or \
@@ -219,9 +243,11 @@ def run(m: Model, r: Report, tier: str) -> None:
 
     # ---------------------------------------------------------------- R6
     last = fn.node.body[-1]
-    r.check(isinstance(last, ast.Raise) and ast.unparse(last.exc) == "last_exception", "R6", f"{fn.qualname}#terminal-raise",
-            "the function must end with `raise last_exception`", loc=fn.loc)
-    ldefs = [a for a in assigns("last_exception") if isinstance(a, ast.Assign)]
+    LAST = ast.unparse(last.exc) if isinstance(last, ast.Raise) and isinstance(last.exc, ast.Name) else "last_exception"
+    r.check(isinstance(last, ast.Raise) and isinstance(last.exc, ast.Name), "R6", f"{fn.qualname}#terminal-raise",
+            "the function must end by raising the recorded terminal exception", loc=fn.loc)
+    ldefs = [a for a in assigns(LAST) if isinstance(a, ast.Assign) or isinstance(a, ast.AnnAssign)]
+    ldefs += [n for n in walk_no_nested(fn.node) if isinstance(n, ast.AnnAssign) and ast.unparse(n.target) == LAST and n.value is not None]
     r.check(bool(ldefs) and all(ast.unparse(a.value).startswith("MissingResponse(request") for a in ldefs), "R6",
             f"{fn.qualname}#terminal-type", f"last_exception is built by {[ast.unparse(a.value)[:40] for a in ldefs]}", loc=fn.loc)
     hs = [n for n in walk_no_nested(fn.node) if isinstance(n, ast.ExceptHandler) and n.type is not None and ast.unparse(n.type) == "ConnectionError"
@@ -229,7 +255,7 @@ def run(m: Model, r: Report, tier: str) -> None:
     if len(hs) != 1:
         raise AnalysisError(f"{fn.qualname}: ConnectionError handler of the attempt not found")
     h = hs[0]
-    cause = any(isinstance(s, ast.Assign) and ast.unparse(s.targets[0]) == "last_exception.__cause__" and ast.unparse(s.value) == h.name for s in h.body)
+    cause = any(isinstance(s, ast.Assign) and ast.unparse(s.targets[0]) == f"{LAST}.__cause__" and ast.unparse(s.value) == h.name for s in h.body)
     r.check(cause, "R6", f"{fn.qualname}#cause", "the MissingResponse does not carry the ConnectionError as __cause__", loc=fn.loc)
     rec = [n for n in ast.walk(h) if isinstance(n, ast.Call) and isinstance(n.func, ast.Attribute) and n.func.attr.startswith("reconnect")]
     ok_rec = len(rec) == 1 and ast.unparse(rec[0].func) == "self.reconnect_unsafe" and \
